@@ -98,6 +98,7 @@ RULE = (
     "spare bot message for selections without dialog and output (1/2). "
     "Non-trivial = subset != all four and (a reject or rewrite among the verdicts of a selected "
     "category, or a selected input/output category without any rail, or one flow that ran in two places); distinct by the whole case."
+    " Enumerated also: texts that begin with a dollar sign (user text and supplied bot message in four spellings x every subset x all-accept / rewriting verdicts; 128 rows)."
 )
 ASSUMPTIONS = [
     "the supplied bot message is passed as a last message with role `assistant` (the code path tests/test_generation_options.py uses; the docs say `bot`)",
@@ -627,6 +628,13 @@ def enumerate_cases(tier):
                 for case in _rows(subset, ("list", "dict")[(n + s) % 2], 2, 2, 1, None, n, tpl=tpl, only_reject=True):
                     yield case
                 n += len(_in_vectors("input" in subset, 2)) * len(_out_vectors("output" in subset, 2))
+    # texts that BEGIN with a dollar sign (a user text, a supplied bot message): they are data, not variable references - every
+    # subset x (all accept / a rewrite in the first selected category) on the 2+2+1 configuration, four spellings of the text
+    for k, (user, bot) in enumerate([("$price is 5", "$total is 9"), ("$user_message", "$bot_message"), ("$", "$ 5"), ("$undefined_name now", "${x}")]):
+        for r in range(5):
+            for subset in itertools.combinations(CATS, r):
+                for vin, vout in ((["accept", "accept"], ["accept", "accept"]), (["rewrite", "accept"], ["accept", "rewrite"])):
+                    yield make_case(list(subset), ("list", "dict")[(k + r) % 2], 2, vin, vout, user, bot, D_ROUTES[(k + r) % len(D_ROUTES)])
 
 
 def _pre_subset(draw):
